@@ -191,8 +191,12 @@ Definition corr_std (tol : Q) (strikes paths : list Q) (df notional : Q) (n d : 
 Record pricing := mkPricing {
   p_payoff : Q -> list Q; p_path : nat -> Q; p_df : Q; p_notional : Q; p_n : nat }.
 Section Reprice.
-  Variable np_empty : list (list Q) -> nat -> list (list Q).
-  Definition initialisation (prev : list (list Q)) (p : pricing) : list (list Q) := np_empty prev (p_n p).
+  Variable garb : list (list Q) -> nat -> list Q.    (* content of row i of np.empty: anything, may depend on the released statistics *)
+  Variable keep : bool.   (* false = the code: a NEW MCStatistics at every initialisation;
+                             true = the variant "keep the buffers of the previous pricing and only extend() them" *)
+  Definition np_empty (prev : list (list Q)) (n : nat) : list (list Q) := map (garb prev) (seq 0 n).
+  Definition initialisation (prev : list (list Q)) (p : pricing) : list (list Q) :=
+    if keep then extend (garb prev 0%nat) (p_n p) prev else np_empty prev (p_n p).
   Definition reprice (prev : list (list Q)) (p : pricing) : list (list Q) :=
     std_engine (p_payoff p) (p_path p) (p_df p) (p_notional p) (p_n p) (initialisation prev p).
   Fixpoint price_seq (prev : list (list Q)) (ps : list pricing) : list (list (list Q)) :=
@@ -202,7 +206,7 @@ Section Reprice.
     end.
 End Reprice.
 (* the worst allocator: hands back the rows of the previous statistics (then junk) *)
-Definition recycling_empty (prev : list (list Q)) (n : nat) : list (list Q) := firstn n (prev ++ repeat [9 # 7] n).
+Definition recycling_garb (prev : list (list Q)) (i : nat) : list Q := nth i prev [9 # 7].
 
 Fixpoint all2s {A B : Type} (f : A -> B -> bool) (a : list A) (b : list B) : bool :=
   match a, b with
@@ -223,4 +227,4 @@ Definition corr_seq (tol : Q) (cs : list seq_case) : bool :=
   let mk := fun c : seq_case => let '(ks, pth, df, no, n, _) := c in
               mkPricing (strike_payoff ks) (tab_path pth) df no n in
   all2s (fun rows (c : seq_case) => let '(ks, _, _, _, n, e) := c in corr_stats tol (length ks) n rows e)
-        (price_seq recycling_empty [] (map mk cs)) cs.
+        (price_seq recycling_garb false [] (map mk cs)) cs.
